@@ -328,7 +328,7 @@ func (c *FnCtx) inlineCall(fr *frame, st *State, callee *ssa.Function, args []in
 	c.inlineDepth++
 	defer func() { c.inlineDepth-- }()
 	savedPos := c.curPos
-	sub := &frame{fn: callee, con: c.eng.contractFor(funcKey(callee), c.prof), params: map[string]Term{}, lets: map[string]Term{}, oldState: st.clone(), modWhole: fr.modWhole, modRefs: fr.modRefs, modKnown: fr.modKnown}
+	sub := &frame{fn: callee, con: c.eng.contractFor(funcKey(callee), c.prof), params: map[string]Term{}, lets: map[string]Term{}, oldState: st.clone(), modWhole: fr.modWhole, modRefs: fr.modRefs, modKnown: fr.modKnown, mayPanic: fr.mayPanic || (fr.con != nil && fr.con.MayPanic)}
 	for i, p := range callee.Params {
 		c.vals[p] = args[i]
 		if t, ok := args[i].(Term); ok {
